@@ -31,6 +31,15 @@ def run_stream(ctx, n, cfg_kw, tag, check_spec):
         if check_spec and not r["spec_eq"] and not (r["err"] or "").startswith("ERR"):
             ctx.spec_fail("an instantiated type is not the capture-free substitution of its declaration",
                           stream=tag, input=r["text"], **r["spec_diff"])
+        if check_spec:
+            # how many of the type-level instantiation calls of this input lie inside the region where the agreement of
+            # code and specification is a THEOREM (C02_inst_eq_subst_partial / C02_scoped_param_cpp / C02_this_scope_partial)
+            g = streams.model_call("c02guard", r["text"])
+            for kv in g.split():
+                k, _, v = kv.partition("=")
+                if v.isdigit():
+                    ctx.count("type_calls_" + {"exact": "inside_proved_tree_equality", "scoped": "inside_proved_cpp_equality_scoped",
+                                               "thisscope": "inside_proved_this_scope", "outside": "outside_proved_region"}.get(k, k), int(v))
 
 
 def search(ctx):
@@ -57,6 +66,10 @@ def main(ctx):
     run_stream(ctx, ctx.scale(90, 1500), dict(c02_safe=True, p_twin_arg=0.6, p_template=0.8, max_args=5, max_decls=3),
                "guarded, argument lists repeating a container with other inner qualifiers", True)
     run_stream(ctx, ctx.scale(120, 2500), dict(), "unguarded(quirks tied to the model only)", False)
+    run_stream(ctx, ctx.scale(100, 1500), dict(c02_safe=True, p_this_args=1.0, p_template=0.6, max_decls=3, extra_kinds=['cls', 'cls']),
+               "guarded, several This::X template arguments in one type", True)
+    run_stream(ctx, ctx.scale(100, 1500), dict(c02_safe=True, p_scoped_deep=0.7, p_template=0.8, max_decls=3),
+               "guarded, scoped uses of a parameter several levels deep (T::traits::value_type)", True)
     for e in ctx.known:
         still = replay_finding(e)
         if e.get("kind") == "fixed":
